@@ -9,6 +9,7 @@ mod big;
 mod engine;
 mod gen;
 mod gen_text;
+mod layout;
 mod model;
 mod mv;
 mod opts;
@@ -39,6 +40,7 @@ fn selftest() {
     model::self_test();
     reader::self_test();
     big::self_test();
+    layout::self_test();
 }
 
 /// Run the committed corpus (replay tier) of a property.
